@@ -46,6 +46,13 @@ func NewChangelog() Changelog {
 
 // Changed records the portion of code altered in this match to the Changelog.
 func (c Changelog) Changed(start, end token.Pos) {
+	// A span that starts at NoPos (the place of a token or node that was
+	// not there) is not a region of the file: it would reach from the
+	// beginning of the file set to end, and subtracting the unchanged
+	// spans would leave the code between two matches marked as changed.
+	if !start.IsValid() {
+		return
+	}
 	c.plus.Add((&span{Start: start, End: end}).AsSet())
 }
 
